@@ -24,7 +24,38 @@ func VerifDir() string {
 	if d := os.Getenv("VERIF_DIR"); d != "" {
 		return d
 	}
+	// the binary lives in <verif>/.bin: a snapshot of /verif run elsewhere then
+	// keeps its scratch files, replays and evidence to itself
+	if exe, err := os.Executable(); err == nil {
+		if dir := filepath.Dir(exe); filepath.Base(dir) == ".bin" {
+			return filepath.Dir(dir)
+		}
+	}
 	return "/verif"
+}
+
+// WorkDir returns a scratch directory private to this process, after removing
+// the ones that dead processes left behind.
+func WorkDir(prop string) (string, error) {
+	base := filepath.Join(VerifDir(), ".work")
+	if ents, err := os.ReadDir(base); err == nil {
+		for _, e := range ents {
+			parts := strings.Split(e.Name(), "-")
+			if len(parts) < 2 {
+				continue
+			}
+			pid, perr := strconv.Atoi(parts[len(parts)-1])
+			if perr != nil {
+				continue
+			}
+			if _, serr := os.Stat(fmt.Sprintf("/proc/%d", pid)); serr != nil {
+				os.RemoveAll(filepath.Join(base, e.Name()))
+			}
+		}
+	}
+	work := filepath.Join(base, fmt.Sprintf("%s-%d", prop, os.Getpid()))
+	os.RemoveAll(work)
+	return work, os.MkdirAll(work, 0o755)
 }
 
 // JobResult is what a worker writes when it finishes its slice.
@@ -189,7 +220,7 @@ func ReplayFile(path string) int {
 		if err != nil {
 			return 2
 		}
-		work := filepath.Join(VerifDir(), ".work", v.Prop+"-replay")
+		work, _ := WorkDir(v.Prop + "-replay")
 		os.RemoveAll(work)
 		os.MkdirAll(work, 0o755)
 		defer os.RemoveAll(work)
